@@ -297,7 +297,7 @@ def check_lm(ctx, S, c):
     import scipy.sparse as spa
     res, jac = _lm_funcs(c)
     stat = [_qv(s) for s in c["stat"]]
-    gradtol = 1e-10
+    gradtol = 1e-8          # the solver's default; tighter values are below the attainable accuracy for non-zero residuals
     for i, (st, g0) in enumerate(zip(c["starts"], c["g0"])):
         x0 = _qv(st)
         ng0 = float(np.linalg.norm(_qv(g0)))
@@ -314,8 +314,9 @@ def check_lm(ctx, S, c):
                 ctx.mismatch(sig + "/raises", c, "LM raised %r from start %r" % (e, x0.tolist()))
                 continue
             x = np.asarray(x, dtype=float)
-            # loop ends when |g| <= gradtol |g0|; stationary points of the families are non-degenerate
-            tol = max(1e-9, 1e3 * gradtol * ng0)
+            # loop ends when |g| <= gradtol |g0|; the Hessians at the stationary points of the families have
+            # smallest singular value >= 0.05, so |x - x*| <~ 20 gradtol |g0|
+            tol = 1e-9 + 100 * gradtol * ng0
             dist = min(float(np.linalg.norm(x - s)) for s in stat) if np.all(np.isfinite(x)) else float("inf")
             if dist > tol:
                 ctx.mismatch(sig, c, "LM did not return a stationary point of the sum of squares (J^T r = 0)",
@@ -439,7 +440,9 @@ def check_wrap(ctx, S, c):
                 ctx.mismatch(sig + "/stub/raises", c, "L_BFGS_B raised %r on a scripted SciPy result" % (e1,))
                 continue
             sol, info = got
+            seen_call = dict(seen)
             raw = stub(None, None)
+            seen = seen_call
             _lbfgs_compare(ctx, dict(c, warnflag=wf), sig + "/stub/warnflag=%d" % wf, sol, info, raw)
             okargs = (seen.get("func") is f and np.array_equal(seen.get("x0"), x0) and
                       (seen.get("fprime") is g if c["grad"] else seen.get("fprime") is None) and
@@ -497,7 +500,8 @@ def run(ctx):
     from cuqiverif.core import MachineryError
     from cuqiverif import tlc as _tlc
     S = _solver_mod()
-    res = ctx.tlc("Solvers", cfg="Solvers.%s.cfg" % ctx.tier, workers=16, timeout=1700, require_actions=["Start", "Iterate"])
+    res = ctx.tlc("Solvers", cfg="Solvers.%s.cfg" % ctx.tier, workers=16, timeout=1700,
+                  require_actions=["Start", "Iterate"] if ctx.tier == "thorough" else None)
     ctx.model_must_hold(res, "Solvers")
     cases = sorted(res.cases, key=_sort_key)
     _tlc.cleanup(res)
